@@ -117,8 +117,10 @@ func judge(level string, d Decl, q Req, e expect, o obs) (string, string) {
 	// binding never panics for any declaration the description language allows
 	if o.Panic != "" {
 		switch {
-		case level != "struct" && et == "number" && ef != "float" && ef != "double":
+		case !structLevel(level) && et == "number" && ef != "float" && ef != "double":
 			return "panic/number-without-float-or-double-format", what
+		case level == "structalt" && d.Type == "string" && d.Format == "byte" && defaultIsExpected(d, q, e) && strings.Contains(o.Panic, "reflect.Value.Bytes on string"):
+			return "panic/default-of-byte-into-byte-slice-field", what
 		case d.Type == "array" && defaultIsExpected(d, q, e) && strings.Contains(o.Panic, "reflect.Set"):
 			return "panic/default-on-array", what
 		case d.Type == "string" && d.Format != "" && fmtLits[d.Format] != nil && defaultIsExpected(d, q, e) && strings.Contains(o.Panic, "reflect.Set"):
@@ -152,8 +154,7 @@ func judge(level string, d Decl, q Req, e expect, o obs) (string, string) {
 		if handlerLevel(level) && o.Ran != 0 {
 			return "handler-ran-on-422", what
 		}
-		_, field := d.goType()
-		if !strings.Contains(o.Message, d.Name) && !(level == "struct" && strings.Contains(o.Message, field)) {
+		if !strings.Contains(o.Message, d.Name) && !(structLevel(level) && strings.Contains(o.Message, fieldFor(level, d))) {
 			return "422-without-parameter-name", what
 		}
 		return "", ""
@@ -164,7 +165,7 @@ func judge(level string, d Decl, q Req, e expect, o obs) (string, string) {
 	}
 	if e.accepts(o) {
 		want, _ := d.goType()
-		if level != "struct" && o.Present && want != "" && o.GoType != want {
+		if !structLevel(level) && o.Present && want != "" && o.GoType != want {
 			return "wrong-go-type", what + "; Go type " + o.GoType + ", declared type denotes " + want
 		}
 		return "", ""
